@@ -29,12 +29,13 @@ var lockName = map[int]string{1: "File.mu", 2: "xlsxWorksheet.mu", 3: "xlsxStyle
 // tracked shared fields: owner type . field -> resource id
 var resourceOf = map[string]int{
 	"xlsxWorksheet.SheetData": 1, "xlsxSheetData.Row": 1,
-	"xlsxWorksheet.Cols": 2,
+	"xlsxWorksheet.Cols":            2,
 	"xlsxWorksheet.DataValidations": 3,
-	"xlsxStyleSheet.CellXfs": 4, "xlsxStyleSheet.Fonts": 4, "xlsxStyleSheet.Fills": 4, "xlsxStyleSheet.Borders": 4, "xlsxStyleSheet.NumFmts": 4,
+	"xlsxWorksheet.Drawing":         7,
+	"xlsxStyleSheet.CellXfs":        4, "xlsxStyleSheet.Fonts": 4, "xlsxStyleSheet.Fills": 4, "xlsxStyleSheet.Borders": 4, "xlsxStyleSheet.NumFmts": 4,
 	"xlsxSST.SI": 5, "xlsxSST.Count": 5, "xlsxSST.UniqueCount": 5, "File.sharedStringsMap": 5,
 }
-var resourceName = map[int]string{1: "worksheet cells (SheetData)", 2: "worksheet columns (Cols)", 3: "worksheet data validations", 4: "style sheet tables", 5: "shared string table", 6: "decoding and publishing a worksheet part"}
+var resourceName = map[int]string{1: "worksheet cells (SheetData)", 2: "worksheet columns (Cols)", 3: "worksheet data validations", 4: "style sheet tables", 5: "shared string table", 6: "decoding and publishing a worksheet part", 7: "worksheet drawing reference"}
 
 // Part readers decode into an object no other goroutine can see yet and publish it: their internal accesses are
 // not shared accesses.  A call to one of them is itself an access to resource 6 and must be made under File.mu.
@@ -129,6 +130,13 @@ type gen struct {
 	closures map[*types.Var]*ast.FuncLit
 	// (held, acquired) pairs seen at every Lock call reachable from a documented function
 	order map[[2]int]string
+	// block nesting below the spine of the documented function (through calls made on the spine), and whether a
+	// part reader has already run on the spine under File.mu: the worksheet is then decoded and published, and a
+	// later reader call in the same documented function is a lookup of the published object (sync.Map), not an
+	// access to resource 6.  Assumes one worksheet per documented call (true of every function in the table).
+	nest        int
+	published   bool
+	republished []string
 }
 
 func namedOf(t types.Type) string {
@@ -217,13 +225,17 @@ func (g *gen) expr(e ast.Expr, write bool, held lockset, depth int) {
 	case *ast.TypeAssertExpr:
 		g.expr(x.X, false, held, depth)
 	case *ast.FuncLit:
+		g.nest++
 		g.block(x.Body.List, held.copy(), depth)
+		g.nest--
 	case *ast.CallExpr:
 		// a call of a parameter bound to a function literal: the literal runs here
 		if id, ok := x.Fun.(*ast.Ident); ok {
 			if v, ok := g.info.Uses[id].(*types.Var); ok {
 				if lit := g.closures[v]; lit != nil {
+					g.nest++
 					g.block(lit.Body.List, held.copy(), depth)
+					g.nest--
 				}
 			}
 		}
@@ -275,6 +287,12 @@ func (g *gen) call(call *ast.CallExpr, held lockset, depth int) {
 	}
 	if partReaders[fn.Name()] {
 		p := g.fset.Position(call.Pos())
+		if _, underFile := held[1]; underFile && g.nest == 0 {
+			g.published = true
+		} else if !underFile && g.published {
+			g.republished = append(g.republished, fmt.Sprintf("%s:%d via %s", filepath.Base(p.Filename), p.Line, g.via))
+			return
+		}
 		g.out = append(g.out, access{Res: 6, Write: true, Locks: held.list(), Pos: fmt.Sprintf("%s:%d", filepath.Base(p.Filename), p.Line), Via: g.via})
 		return
 	}
@@ -397,11 +415,15 @@ func (g *gen) stmt(st ast.Stmt, held lockset, depth int) lockset {
 			held = g.stmt(s.Init, held, depth)
 		}
 		g.expr(s.Cond, false, held, depth)
+		g.nest++
 		thenEnd := g.block(s.Body.List, held.copy(), depth)
+		g.nest--
 		elseEnd := held.copy()
 		elseTerm := false
 		if s.Else != nil {
+			g.nest++
 			elseEnd = g.stmt(s.Else, held.copy(), depth)
+			g.nest--
 			if b, ok := s.Else.(*ast.BlockStmt); ok {
 				elseTerm = terminates(b.List)
 			}
@@ -420,14 +442,18 @@ func (g *gen) stmt(st ast.Stmt, held lockset, depth int) lockset {
 			held = g.stmt(s.Init, held, depth)
 		}
 		g.expr(s.Cond, false, held, depth)
+		g.nest++
 		end := g.block(s.Body.List, held.copy(), depth)
+		g.nest--
 		if s.Post != nil {
 			g.stmt(s.Post, end, depth)
 		}
 		return intersect(held, end)
 	case *ast.RangeStmt:
 		g.expr(s.X, false, held, depth)
+		g.nest++
 		end := g.block(s.Body.List, held.copy(), depth)
+		g.nest--
 		return intersect(held, end)
 	case *ast.SwitchStmt:
 		if s.Init != nil {
@@ -440,7 +466,9 @@ func (g *gen) stmt(st ast.Stmt, held lockset, depth int) lockset {
 			for _, e := range c.List {
 				g.expr(e, false, held, depth)
 			}
+			g.nest++
 			end := g.block(c.Body, held.copy(), depth)
+			g.nest--
 			if !terminates(c.Body) {
 				res = intersect(res, end)
 			}
@@ -450,7 +478,9 @@ func (g *gen) stmt(st ast.Stmt, held lockset, depth int) lockset {
 		res := held.copy()
 		for _, cc := range s.Body.List {
 			c := cc.(*ast.CaseClause)
+			g.nest++
 			end := g.block(c.Body, held.copy(), depth)
+			g.nest--
 			if !terminates(c.Body) {
 				res = intersect(res, end)
 			}
@@ -509,7 +539,7 @@ func main() {
 			if obj, ok := info.Defs[fd.Name].(*types.Func); ok {
 				g.decls[obj] = fd
 			}
-			if fd.Doc != nil && strings.Contains(strings.Join(strings.Fields(fd.Doc.Text()), " "), "concurrency safe") {
+			if fd.Doc != nil && strings.Contains(strings.ReplaceAll(strings.Join(strings.Fields(fd.Doc.Text()), " "), "concurrency-safe", "concurrency safe"), "concurrency safe") {
 				name := fd.Name.Name
 				if fd.Recv != nil && len(fd.Recv.List) > 0 {
 					name = namedOfExpr(fd.Recv.List[0].Type) + "." + name
@@ -530,6 +560,7 @@ func main() {
 	var table []entry
 	for _, d := range docs {
 		g.out, g.stack, g.via = nil, map[*types.Func]bool{}, d.name
+		g.nest, g.published = 0, false
 		if obj, ok := info.Defs[d.decl.Name].(*types.Func); ok {
 			g.stack[obj] = true
 		}
@@ -604,7 +635,7 @@ func main() {
 		os.Exit(1)
 	}
 	if len(os.Args) > 3 {
-		b, _ := json.MarshalIndent(map[string]interface{}{"functions": table, "locks": lockName, "resources": resourceName}, "", " ")
+		b, _ := json.MarshalIndent(map[string]interface{}{"functions": table, "locks": lockName, "resources": resourceName, "lookups_of_published_sheet": g.republished}, "", " ")
 		os.WriteFile(os.Args[3], b, 0o644)
 	}
 	fmt.Printf("lockgen: %d documented functions\n", len(table))
